@@ -41,7 +41,7 @@ def _calls_to(ctx: Ctx, fi: FuncInfo, targets: Set[FuncInfo]) -> List[ast.Call]:
 
 def rule_reg12(ctx: Ctx) -> RuleResult:
     rr = RuleResult("REG-1/2", "a model leaves the registry only together with retargeting of every reference to it",
-                    floor=6)
+                    floor=4)
     prog = ctx.prog
     c = prog.cls(*REG)
     attr = _registry_attr(ctx)
@@ -262,7 +262,7 @@ def _key_is_loop_var_of_same(f: FuncInfo, sub: ast.Subscript) -> bool:
 
 
 def rule_reg3(ctx: Ctx) -> RuleResult:
-    rr = RuleResult("REG-3", "no loop iterates a collection that its own body resizes, unless over a snapshot", floor=4)
+    rr = RuleResult("REG-3", "no loop iterates a collection that its own body resizes, unless over a snapshot", floor=2)
     trans = _size_mutated_attrs(ctx)
     prop_backing: Dict[str, str] = {}
     for f in ctx.prog.all_funcs():
@@ -532,6 +532,15 @@ def rule_cmp2(ctx: Ctx) -> RuleResult:
         else:
             meas_ok = isinstance(l, ast.BinOp) and isinstance(l.op, ast.Div) and _set_op(l.left, ast.BitAnd, a, b) \
                 and _set_op(l.right, ast.BitOr, a, b)
+            # cross-multiplied form (no division by an empty union): |a ∩ b| >= p * |a ∪ b|
+            if not meas_ok and _set_op(l, ast.BitAnd, a, b) and isinstance(r, ast.BinOp) and isinstance(r.op, ast.Mult):
+                fac = [r.left, r.right]
+                thr = [x for x in fac if is_thr(x)]
+                uni = [x for x in fac if _set_op(x, ast.BitOr, a, b)]
+                if len(thr) == 1 and len(uni) == 1:
+                    meas_ok = True
+                    r = thr[0]
+                    thr_ok = True
             want = "|a ∩ b| / |a ∪ b| >= p"
         ok = thr_ok and meas_ok and op == ">="
         how = f"normal form `{norm(l)} {op} {norm(r)}`"
